@@ -797,7 +797,56 @@ fn mutate_direct(r: &mut Rng, p: &[Stmt], src: &str) -> Vec<Stmt> {
     v
 }
 
+/// Labels with non-ASCII letters that have a distinct upper-case form (the lexer's `\w` admits them after an
+/// ASCII first letter).  Direct oracle only: the Coq model folds case for ASCII (and the ten characters whose
+/// upper-casing is ASCII), so these programs are not recorded as correspondence cases.  "Compared ignoring case"
+/// is Unicode upper-casing here, as everywhere else in the crate's label handling.
+fn unicode_case_labels(ctx: &Ctx, r: &mut Rng) {
+    let pairs: [(&str, &str); 8] = [("caf\u{e9}", "CAF\u{c9}"), ("z\u{e4}hler", "Z\u{c4}HLER"), ("se\u{f1}al", "SE\u{d1}AL"), ("gr\u{f6}\u{df}e", "GR\u{d6}SSE"),
+                                    ("x\u{3bb}", "X\u{39b}"), ("d\u{434}", "D\u{414}"), ("a\u{e5}b", "A\u{c5}B"), ("n\u{f8}", "N\u{d8}")];
+    for (lo, up) in pairs {
+        let org = 0x3000 + r.below(0x100) as u16 * 16;
+        let what = |m: String, src: &str| format!("{m}; source = \"{}\"", esc(src));
+        // (1) the same label in two spellings at two addresses: must be rejected as a duplicate
+        for (a, b) in [(lo, up), (up, lo)] {
+            let src = format!(".orig x{org:04X}\n{a} .fill 1\n{b} .fill 2\n.end\n");
+            let replay = format!("source\t{}", esc(&src));
+            match catch(|| parse_ast(&src).ok().map(|p| (assemble(p.clone()).map(|_| ()).map_err(|e| e.kind), assemble_debug(p, &src).map(|_| ()).map_err(|e| e.kind)))) {
+                Some(Some((x, y))) => for (mode, res) in [("assemble", x), ("assemble_debug", y)] {
+                    match res {
+                        Err(AsmErrKind::OverlappingLabels) => ctx.stat("unicode_labels.duplicate_rejected", 1),
+                        Ok(()) => ctx.fail("C02", "accepts_ill_formed", what(format!("{mode} accepts a program that binds one label (two spellings differing in letter case) to two addresses"), &src), replay.clone()),
+                        Err(k) => ctx.fail("C02", "wrong_error_kind", what(format!("{mode} reports {k:?} for a label bound to two addresses"), &src), replay.clone()),
+                    }
+                },
+                Some(None) => ctx.stat("unicode_labels.unparsed", 1),
+                None => ctx.fail("C02", "panics", what("assembling panics".into(), &src), replay.clone()),
+            }
+        }
+        // (2) defined in one spelling, used in the other (PC-relative operand, .fill, .external + definition elsewhere): well formed
+        for (def, usep) in [(lo, up), (up, lo)] {
+            let src = format!(".orig x{org:04X}\nLD R0, {usep}\nLEA R1, {usep}\n.fill {usep}\n{def} .fill 7\n.end\n");
+            let replay = format!("source\t{}", esc(&src));
+            match catch(|| parse_ast(&src).ok().map(|p| assemble(p).map_err(|e| e.kind))) {
+                Some(Some(Ok(o))) => {
+                    ctx.stat("unicode_labels.use_accepted", 1);
+                    let words: Vec<Option<u16>> = o.verif_blocks().into_iter().flat_map(|(_, w)| w).collect();
+                    let want = vec![Some(0x2002u16), Some(0xE201), Some(org + 3), Some(7)];
+                    if words != want { ctx.fail("C01", "image_differs", what(format!("image {words:x?}, expected {want:x?}"), &src), replay.clone()); }
+                }
+                Some(Some(Err(k))) => {
+                    ctx.fail("C02", "rejects_well_formed", what(format!("assemble rejects a well-formed program with {k:?} (label defined and used in spellings differing in letter case)"), &src), replay.clone());
+                    ctx.fail("C01", "no_image_for_well_formed", what(format!("assemble gives no object file for a well-formed program ({k:?})"), &src), replay.clone());
+                }
+                Some(None) => ctx.stat("unicode_labels.unparsed", 1),
+                None => ctx.fail("C02", "panics", what("assembling panics".into(), &src), replay.clone()),
+            }
+        }
+    }
+}
+
 pub fn run(ctx: &Ctx, _replay: Option<&str>) {
+    { let mut r = Rng::new(ctx.seed ^ 0xC02); unicode_case_labels(ctx, &mut r); }
     let n = ctx.n(3000, 40_000) as usize;
     let base = Rng::new(ctx.seed);
     let stats = std::sync::Mutex::new((Counts { ok: 0, err: BTreeMap::new(), panics: 0 }, BTreeMap::<String, i64>::new()));
